@@ -1,4 +1,4 @@
-Require Import KV.Codec13.Witness KV.Codec13.StrProofs KV.Codec13.DictProofs KV.Codec13.NtProofs.
+Require Import KV.Codec13.Witness KV.Codec13.StrProofs KV.Codec13.DictProofs KV.Codec13.QtDictProofs KV.Codec13.NtProofs.
 
 Lemma ostr_eqb_refl : forall a, ostr_eqb a a = true.
 Proof. intros [a|]; [apply str_eqb_refl | reflexivity]. Qed.
@@ -27,6 +27,9 @@ Lemma wa_db_ok : db_ok wa_db.
 Proof.
   unfold wa_db. destruct (add_lex_spec db_new [120] [121] [122] None db_new_ok) as [K _]; [vm_compute; discriminate | exact K].
 Qed.
+
+Lemma wa_db_okq : db_okq wa_db.
+Proof. split; [exact wa_db_ok | apply QtDictProofs.qts_ok_new; reflexivity]. Qed.
 
 Lemma n3_nonempty_refuted :
   wf_item_n3 (hd (IBlank []) wa_doc) = true /\ db_ok wa_db /\
